@@ -1071,6 +1071,96 @@ def _outside(ctx):
         run_cases(ctx, cases[i:i + 500], 'outside', shrink=False, outside=True)
 
 
+def enum_as_written(text, enums):
+    """the same file with every enum TYPE name in the letter case the document gives it (the model's renderer, like pydl's
+    own writer, upper-cases them; the format does not require that): only inside typedef blocks - the name after the closing
+    brace of the enum definition and the type word of member declarations"""
+    names = {e[1].upper(): e[1] for e in enums if e[1] != e[1].upper()}
+    if not names:
+        return text
+
+    def sub_words(part):
+        return re.sub(r'\b(%s)\b' % '|'.join(re.escape(u) for u in names), lambda m: names[m.group(1)], part)
+
+    def block(m):
+        kind, body, tail = m.group(1), m.group(2), m.group(3)
+        if kind == 'enum':
+            return 'typedef' + m.group('g1') + kind + m.group('g2') + '{' + body + '}' + sub_words(tail)
+        return 'typedef' + m.group('g1') + kind + m.group('g2') + '{' + sub_words(body) + '}' + tail
+    return re.sub(r'typedef(?P<g1>\s+)(enum|struct)(?P<g2>\s*)\{([^}]*)\}(\s*\w+\s*;)',
+                  lambda m: block(_Regroup(m)), text)
+
+
+class _Regroup:
+    """group numbers of the pattern above without the two named blanks"""
+    def __init__(self, m):
+        self.m = m
+
+    def group(self, k):
+        if isinstance(k, str):
+            return self.m.group(k)
+        return self.m.group({1: 2, 2: 4, 3: 5}[k])
+
+
+def _enumcase(ctx, cases=None):
+    """enum type names written in lower / mixed case (the statement: enum columns read as their label text; names are
+    arbitrary identifiers).  The model's renderer upper-cases enum type names as pydl's writer does, so these texts are
+    outside the rendering relation of the theorems; the model READER is still compared with the code on them, and the
+    statement oracle judges the real reader.  (seeded change C02-21: cache keyed by the upper-cased type name)"""
+    rng = ctx.rng
+    given = cases is not None
+    cases, tries = cases or [], 0
+    while not given and len(cases) < ctx.n(120, 1500) and tries < 40000:
+        tries += 1
+        doc = gen_doc(rng, ntab=rng.choice([1, 1, 2, 3]))
+        if not in_domain(doc):
+            continue
+        used = [e for e in doc['enums'] if e[1] != e[1].upper() and any(c[0] == e[0] for t in doc['tables'] for c in t['cols'])]
+        if not used:
+            continue
+        # a table or column called like the enum type in another letter case would make the substitution ambiguous
+        low = {e[1].upper() for e in doc['enums']}
+        if any(t['name'].upper() in low or any(c[0].upper() in low for c in t['cols']) for t in doc['tables']):
+            continue
+        mask = gen_mask(rng)
+        lseed = rng.getrandbits(48)
+        cases.append({'doc': doc, 'mask': mask, 'lseed': lseed, 'p': 0.6, 'lay': gen_layout(doc, mask, lseed, 0.6)})
+    out = c01.drv([{'p': 'C02', 'op': 'lay', 'doc': lean_doc(c['doc']), 'lay': c['lay']} for c in cases], parallel=True, chunk=300)
+    todo = []
+    for c, m in zip(cases, out):
+        if 'driver_error' in m or m.get('text') is None or not (m.get('okw') and m.get('oku')):
+            ctx.count('enumcase:regenerated')
+            continue
+        text = enum_as_written(m['text'], c['doc']['enums'])
+        if text == m['text']:
+            ctx.count('enumcase:regenerated')
+            continue
+        todo.append((c, text))
+    parsed = c01.drv([{'p': 'C02', 'op': 'parse', 'text': t} for _, t in todo], parallel=True, chunk=300)
+    for (c, text), mm in zip(todo, parsed):
+        doc = c['doc']
+        case = {'stream': 'enumcase', 'doc': doc, 'lay': c['lay'], 'mask': c['mask'], 'lseed': c['lseed'], 'p': 0.6, 'text': text}
+        ctx.seen({'doc': lean_doc(doc), 'text': text})
+        res = real_read(ctx, text)
+        v = judge(doc, res)
+        ctx.count('enumcase:oracle:%s' % (v[0] if v else 'ok'))
+        if v is not None:
+            ctx.violate('enumcase:' + v[0], 'enum type names as written (%s): %s' % (
+                ', '.join(e[1] for e in doc['enums']), v[1]), case)
+        if 'driver_error' in mm:
+            ctx.disagree('enumcase-driver', case, None, mm)
+            continue
+        for mode in ('name', 'binary'):
+            r = res[mode]
+            impl = {'err': r['err']} if 'err' in r else {'ok': r['ok']}
+            if impl != model_bits(mm['parsed']):
+                ctx.disagree('enumcase-real-' + mode, case, impl, model_bits(mm['parsed']))
+        r = res['raw']
+        impl = {'err': r['err']} if 'err' in r else {'ok': r['ok']}
+        if impl != model_raw(mm['raw']):
+            ctx.disagree('enumcase-real-raw', case, impl, model_raw(mm['raw']))
+
+
 def _ensure_driver():
     ok, _ = core.lake_build(['pydl_driver'])
     if not ok:
@@ -1100,6 +1190,7 @@ def run(ctx):
                 lseed = ctx.rng.getrandbits(48)
                 cases.append({'doc': doc, 'mask': mask, 'lseed': lseed, 'p': 1.0, 'lay': gen_layout(doc, mask, lseed, 1.0)})
         run_cases(ctx, cases, 'exh')
+    _enumcase(ctx)
 
 
 def replay(ctx, case):
@@ -1117,5 +1208,7 @@ def replay(ctx, case):
                   s, shrink=False, outside=(s == 'outside'))
     elif s == 'qtok':
         _qtok(ctx, [{k: case[k] for k in ('q', 's', 'tail', 'sep', 'rest')}])
+    elif s == 'enumcase':
+        _enumcase(ctx, [{'doc': case['doc'], 'lay': case['lay'], 'mask': case.get('mask'), 'lseed': case.get('lseed'), 'p': 0.6}])
     else:
         run(ctx)
